@@ -33,13 +33,13 @@ func c17Cells(tier string) []Cell {
 
 	for _, iv := range []int{0, 1} {
 		for _, cb := range []int{0, 1, 3} {
-			for first := 0; first < 7; first++ {
+			for first := 0; first < 8; first++ {
 				cells = append(cells, Cell{ID: c17Cell{Mode: "seq", Interval: iv, Callbacks: cb, First: first}.id()})
 			}
 
 			progs := [][]int{{1, 1}, {2, 1}, {1, 1, 1}}
 			if tier == "thorough" {
-				progs = append(progs, []int{2, 2}, []int{2, 1, 1}, []int{2, 2, 1})
+				progs = append(progs, []int{2, 2}, []int{2, 1, 1}, []int{2, 2, 1}, []int{2, 2, 2}, []int{1, 1, 1, 1}, []int{3, 2})
 			}
 
 			for _, p := range progs {
@@ -64,12 +64,16 @@ type c17h struct {
 	overlap  bool
 	monitor  int64
 	ncalls   int
+	panicIn  int // id of the call whose last callback panics (-1: none)
 }
+
+// c17Panic is what a faulting callback panics with.
+type c17Panic struct{}
 
 func newC17(cc c17Cell, points bool) *c17h {
 	vclock.Reset()
 
-	h := &c17h{inv: &cache.Invalidator{SkipInterval: time.Duration(cc.Interval) * time.Second}, runStart: map[int]time.Time{}}
+	h := &c17h{inv: &cache.Invalidator{SkipInterval: time.Duration(cc.Interval) * time.Second}, runStart: map[int]time.Time{}, panicIn: -1}
 
 	for j := 0; j < cc.Callbacks; j++ {
 		j := j
@@ -90,6 +94,10 @@ func newC17(cc c17Cell, points bool) *c17h {
 
 			h.log = append(h.log, fmt.Sprintf("cb%d@call%v", j, ctx.Value(callIDKey{})))
 			h.inflight--
+
+			if id, ok := ctx.Value(callIDKey{}).(int); ok && id == h.panicIn && j == cc.Callbacks-1 {
+				panic(c17Panic{})
+			}
 		})
 	}
 
@@ -101,6 +109,29 @@ func (h *c17h) invalidate() (int, error) {
 	h.ncalls++
 
 	return id, h.inv.Invalidate(context.WithValue(context.Background(), callIDKey{}, id))
+}
+
+// invalidateFaulting is invalidate with the last callback panicking if the call is accepted; the caller recovers.
+func (h *c17h) invalidateFaulting() (id int, err error, panicked bool) {
+	id = h.ncalls
+	h.ncalls++
+	h.panicIn = id
+
+	defer func() {
+		h.panicIn = -1
+
+		if r := recover(); r != nil {
+			if _, ok := r.(c17Panic); !ok {
+				panic(r)
+			}
+
+			panicked = true
+		}
+	}()
+
+	err = h.inv.Invalidate(context.WithValue(context.Background(), callIDKey{}, id))
+
+	return id, err, false
 }
 
 // callbacksOf returns the callbacks logged for a call, in order.
@@ -136,7 +167,8 @@ func c17Interval(cc c17Cell) time.Duration {
 
 func c17Seq(cc c17Cell, env *Env) CellResult {
 	iv := c17Interval(cc)
-	ops := []string{"Invalidate", "Advance(I-1ns)", "Advance(I)", "Advance(I+1ns)", "Advance(1ns)", "Callbacks=nil", "Callbacks=restored"}
+	ops := []string{"Invalidate", "Advance(I-1ns)", "Advance(I)", "Advance(I+1ns)", "Advance(1ns)", "Callbacks=nil", "Callbacks=restored",
+		"Invalidate(last callback panics, caller recovers)"}
 
 	type st struct {
 		h        *c17h
@@ -153,10 +185,37 @@ func c17Seq(cc c17Cell, env *Env) CellResult {
 
 	apply := func(s *st, op int) (string, bool) {
 		switch op {
-		case 0:
+		case 0, 7:
 			now := vclock.NowQuiet()
-			id, err := s.h.invalidate()
+
+			var (
+				id       int
+				err      error
+				panicked bool
+			)
+
+			if op == 7 {
+				id, err, panicked = s.h.invalidateFaulting()
+			} else {
+				id, err = s.h.invalidate()
+			}
+
 			got := s.h.callbacksOf(id)
+
+			if accepted := cc.Callbacks != 0 && !s.cleared && (!s.accepted || now.Sub(s.last) >= iv); panicked != (op == 7 && accepted) {
+				return fmt.Sprintf("callback panic reached the caller: %v, want %v", panicked, op == 7 && accepted), false
+			}
+
+			if panicked {
+				// an accepted run is an accepted run, however it ended: the next one is due SkipInterval later
+				if got != wantCallbacks(cc.Callbacks) {
+					return fmt.Sprintf("accepted call ran callbacks [%s] before the last one panicked, want [%s]", got, wantCallbacks(cc.Callbacks)), false
+				}
+
+				s.last, s.accepted = now, true
+
+				return "accepted-panicked", true
+			}
 
 			switch {
 			case cc.Callbacks == 0 || s.cleared:
@@ -438,7 +497,7 @@ func init() {
 	Register(&Prop{
 		ID: "C17", Title: "Invalidator runs all callbacks, at most once per SkipInterval",
 		Cells: c17Cells, Run: c17Run,
-		Rule: "(seq) BFS over sequences of {Invalidate, Advance I-1ns, I, I+1ns, 1ns, Callbacks=nil, Callbacks=restored} for SkipInterval {default 15s, 1s} x callbacks {none,1,3} against the model accepted <=> now-lastAccepted >= I; " +
+		Rule: "(seq) BFS over sequences of {Invalidate, Invalidate whose last callback panics (caller recovers), Advance I-1ns, I, I+1ns, 1ns, Callbacks=nil, Callbacks=restored} for SkipInterval {default 15s, 1s} x callbacks {none,1,3} against the model accepted <=> now-lastAccepted >= I; " +
 			"(conc) 2-3 threads x 1-2 Invalidate calls plus a clock thread advancing by I-1ns or I, callbacks are harness functions with a scheduling point inside, all schedules within the bound: " +
 			"no overlap, every accepted call runs every callback once in order before it returns, rejected calls run none, number of accepted calls bounded by the elapsed virtual time",
 		Assumptions: []string{
